@@ -71,15 +71,23 @@ static void ep_clear(endpoint_t *e) {
 
 /* (re)create the security context of an endpoint: sender id sid, recipient id rid, sender
  * sequence number start_seq; returns 0 when libcoap refuses the configuration */
+static int ep_setup2(endpoint_t *e, const secspec_t *s, const char *sid, const char *rid,
+                     uint64_t start_seq, int add);
 static int ep_setup(endpoint_t *e, const secspec_t *s, const char *sid, const char *rid,
                     uint64_t start_seq) {
+  return ep_setup2(e, s, sid, rid, start_seq, 0);
+}
+/* add = 1: keep what the endpoint has and add one more security context to its coap_context_t
+ * (a server with several contexts; they share the endpoint's one session) */
+static int ep_setup2(endpoint_t *e, const secspec_t *s, const char *sid, const char *rid,
+                     uint64_t start_seq, int add) {
   char conf[2048];
   size_t n;
   uint8_t *b;
   char hs[600], hsalt[600], hctx[600], hsid[64], hrid[64];
   coap_oscore_conf_t *oc;
   coap_str_const_t mem;
-  ep_clear(e);
+  if (!add) ep_clear(e);
   if (!e->ctx) e->ctx = coap_new_context(NULL);
   if (!e->ctx) return 0;
   b = bytes_of_tok(s->secret, &n); hex_into(hs, b, n); free(b);
@@ -104,6 +112,7 @@ static int ep_setup(endpoint_t *e, const secspec_t *s, const char *sid, const ch
   oc = coap_new_oscore_conf(mem, NULL, NULL, start_seq);
   if (!oc) return 0;
   if (!coap_context_oscore_server(e->ctx, oc)) return 0;
+  if (add && e->sess) return 1;
   e->sess = (coap_session_t *)calloc(1, sizeof(coap_session_t));
   e->sess->context = e->ctx;
   e->sess->proto = COAP_PROTO_UDP;
@@ -480,6 +489,72 @@ static void oscseq(void) {
   free(tokb);
 }
 
+/* oscmulti <peer A: secret salt idctx cid sid cseq sseq token> <peer B: same> <step>*
+ * two security contexts at ONE server endpoint / session, two client endpoints; requests
+ * interleaved, responses delayed or out of order.  See ocaml/d_oscore.ml. */
+static endpoint_t ep_client_b;
+
+static void oscmulti(void) {
+  secspec_t sa = { vtok[1], vtok[2], vtok[3] }, sb = { vtok[9], vtok[10], vtok[11] };
+  size_t tla, tlb;
+  uint8_t *ta = bytes_of_tok(vtok[8], &tla), *tb = bytes_of_tok(vtok[16], &tlb);
+  int ok = ep_setup(&ep_client, &sa, vtok[4], vtok[5], strtoull(vtok[6], NULL, 10)) &&
+           ep_setup(&ep_client_b, &sb, vtok[12], vtok[13], strtoull(vtok[14], NULL, 10)) &&
+           ep_setup(&ep_server, &sa, vtok[5], vtok[4], strtoull(vtok[7], NULL, 10)) &&
+           ep_setup2(&ep_server, &sb, vtok[13], vtok[12], strtoull(vtok[15], NULL, 10), 1);
+  if (!ok) { puts("NOCTX"); free(ta); free(tb); return; }
+  for (int i = 17, k = 1; i < vntok; i++, k++) {
+    const char *st = vtok[i];
+    int isa = st[1] == 'A';
+    endpoint_t *cl = isa ? &ep_client : &ep_client_b;
+    const uint8_t *tok = isa ? ta : tb;
+    size_t tl = isa ? tla : tlb;
+    coap_pdu_t *pdu, *osc, *dec;
+    uint8_t *dg;
+    size_t n;
+    int r;
+    if (st[0] == 'Q') {
+      pdu = coap_pdu_init(COAP_MESSAGE_NON, COAP_REQUEST_CODE_GET, (coap_mid_t)(100 + k), 0);
+      coap_add_token(pdu, tl, tok);
+      if (st[2] == '0') coap_add_option(pdu, COAP_OPTION_OBSERVE, 0, NULL);
+      if (st[2] == '1') { uint8_t one = 1; coap_add_option(pdu, COAP_OPTION_OBSERVE, 1, &one); }
+      coap_add_option(pdu, COAP_OPTION_URI_PATH, 1, (const uint8_t *)"s");
+      osc = protect(cl, pdu, 0);
+      coap_delete_pdu(pdu);
+      if (!osc) { fputs(" q=NONE", stdout); continue; }
+      dg = datagram_of(osc, &n);
+      coap_delete_pdu(osc);
+      fputs(" q=", stdout);
+      show_full(stdout, dg, n);
+      fputs(" dq=", stdout);
+      r = receive(&ep_server, dg, n, &dec);
+      show_receive(stdout, r, dec);
+      free(dg);
+    } else {
+      uint8_t pl[2] = { 'r', (uint8_t)('0' + k % 10) };
+      uint8_t ov = (uint8_t)k;
+      pdu = coap_pdu_init(COAP_MESSAGE_NON, COAP_RESPONSE_CODE(205), (coap_mid_t)(200 + k), 0);
+      coap_add_token(pdu, tl, tok);
+      if (st[2] == '1') coap_add_option(pdu, COAP_OPTION_OBSERVE, 1, &ov);
+      coap_add_data(pdu, 2, pl);
+      osc = protect(&ep_server, pdu, st[3] == '1');
+      coap_delete_pdu(pdu);
+      if (!osc) { fputs(" r=NONE", stdout); continue; }
+      dg = datagram_of(osc, &n);
+      coap_delete_pdu(osc);
+      fputs(" r=", stdout);
+      show_full(stdout, dg, n);
+      fputs(" dr=", stdout);
+      r = receive(cl, dg, n, &dec);
+      show_receive(stdout, r, dec);
+      free(dg);
+    }
+  }
+  fputc('\n', stdout);
+  free(ta);
+  free(tb);
+}
+
 int main(void) {
   coap_startup();
   coap_set_log_level(getenv("VLOG") ? COAP_LOG_OSCORE : COAP_LOG_EMERG);
@@ -490,10 +565,12 @@ int main(void) {
     else if (!strcmp(vtok[0], "oscflip")) oscflip();
     else if (!strcmp(vtok[0], "oscderive")) oscderive();
     else if (!strcmp(vtok[0], "oscseq")) oscseq();
+    else if (!strcmp(vtok[0], "oscmulti")) oscmulti();
     else puts("ERROR unknown command");
     fflush(stdout);
   }
   ep_clear(&ep_client);
+  ep_clear(&ep_client_b);
   ep_clear(&ep_server);
   return 0;
 }
